@@ -16,7 +16,9 @@ Definition QcA : akern Qc :=
      a_demand_met := fun r t => An_demand_met (this r) (this t);
      a_demands_ratio := fun a b => Q2Qc (An_demands_ratio (this a) (this b));
      a_nema := fun m m2 mx => Q2Qc (An_nema (this m) (this m2) (this mx));
-     a_minutes := fun i p => Q2Qc (An_minutes (this i) (this p)) |}.
+     a_minutes := fun i p => Q2Qc (An_minutes (this i) (this p));
+     a_energy_cost := fun t d => Q2Qc (An_energy_cost (this t) (this d));
+     a_demand_charge := fun dc m => Q2Qc (An_demand_charge (this dc) (this m)) |}.
 
 Definition traj_in (t : traj (F:=Q)) : traj (F:=Qc) :=
   mk_traj (t_width t) (map (map Q2Qc) (t_rates t)) (map Q2Qc (t_volts t))
@@ -44,6 +46,9 @@ Definition check_c18_qc (c : c18case) : bool :=
   && forallb (fun r => option_eqb (list_eqb oQ_close)
                          (option_map (map othis) (current_unbalance_call QcO QcA tr (fst r))) (snd r)) (i_nema c)
   && Qlist_close (map this (datetimes_minutes QcO QcA tr)) (i_minutes c)
+  && forallb (fun r => let '(prices, dc, ec, dch) := r in
+                Qclose (this (energy_cost QcO QcA tr (map Q2Qc prices))) ec
+                && oQ_close (othis (demand_charge QcO QcA tr (Q2Qc dc))) (Some dch)) (i_costs c)
   (* the SPEC evaluated by the model against the implementation-shaped model (both in Coq) *)
   && Qlist_close (map (fun t => this (aggregate_current_spec QcO tr t)) (periods tr)) (map this (aggregate_current QcO tr))
   && Qlist_close (map (fun t => this (aggregate_power_spec QcO tr t)) (periods tr)) (map this (aggregate_power QcO QcA tr)).
